@@ -30,7 +30,9 @@ def write_plain_nc(path, fmt='NETCDF3_CLASSIC', base=100):
 
 def write_ioapi_nc(path, fmt='NETCDF3_CLASSIC', base=200, nt=2, nl=2, nr=2,
                    nc=3, names=('O3', 'NO2'), sdate=2011365, stime=220000,
-                   tstep=10000):
+                   tstep=10000, gaps=None, profile=False):
+    """gaps: per record the number of steps since the start (an irregular
+    time axis); profile: also an unlisted variable PRES(TSTEP, LAY)."""
     import netCDF4
     ds = netCDF4.Dataset(path, 'w', format=fmt)
     ds.createDimension('TSTEP', None)
@@ -48,7 +50,7 @@ def write_ioapi_nc(path, fmt='NETCDF3_CLASSIC', base=200, nt=2, nl=2, nr=2,
     dt = datetime.timedelta(hours=tstep // 10000,
                             minutes=tstep // 100 % 100, seconds=tstep % 100)
     for ti in range(nt):
-        t = t0 + ti * dt
+        t = t0 + (gaps[ti] if gaps else ti) * dt
         tf[ti, :, 0] = int(t.strftime('%Y%j'))
         tf[ti, :, 1] = int(t.strftime('%H%M%S'))
     for vi, n in enumerate(names):
@@ -58,6 +60,12 @@ def write_ioapi_nc(path, fmt='NETCDF3_CLASSIC', base=200, nt=2, nl=2, nr=2,
         v.var_desc = n.ljust(80)
         v[0:nt] = (np.arange(nt * nl * nr * nc).reshape(nt, nl, nr, nc) +
                    base + 100 * vi).astype('f4')
+    if profile:
+        v = ds.createVariable('PRES', 'f4', ('TSTEP', 'LAY'))
+        v.long_name = 'PRES'.ljust(16)
+        v.units = 'Pa'.ljust(16)
+        v.var_desc = 'PRES'.ljust(80)
+        v[0:nt] = np.arange(nt * nl).reshape(nt, nl).astype('f4')
     ds.IOAPI_VERSION = 'x'.ljust(80)
     ds.EXEC_ID = '?'.ljust(80)
     ds.FTYPE = np.int32(1)
